@@ -929,20 +929,31 @@ func (g *Gen) opAddInitPos(st *GovState) *Op {
 }
 
 func (g *Gen) opReduceInitPos(st *GovState) *Op {
-	pk, owner := g.ownedPeer(st, func(p *gov.PeerPoolItem) bool { return true })
-	if owner == nil {
-		return nil
-	}
-	p := st.Pool()[pk]
 	posLimit := uint64(20)
 	if st.Param != nil {
 		posLimit = uint64(st.Param.PosLimit)
 	}
-	floor := (p.TotalPos + posLimit - 1) / posLimit
-	promise, hasPromise := st.Promise[pk]
-	if promise > floor {
-		floor = promise
+	floorOf := func(p *gov.PeerPoolItem) uint64 {
+		f := (p.TotalPos + posLimit - 1) / posLimit
+		if pr := st.Promise[p.PeerPubkey]; pr > f {
+			f = pr
+		}
+		return f
 	}
+	// mostly a peer whose init pos can actually be reduced (has a promise record and init pos above the floor)
+	pk, owner := g.ownedPeer(st, func(p *gov.PeerPoolItem) bool {
+		_, has := st.Promise[p.PeerPubkey]
+		return has && active(p) && p.InitPos > floorOf(p)
+	})
+	if owner == nil || g.Rng.Chance(25) {
+		pk, owner = g.ownedPeer(st, func(p *gov.PeerPoolItem) bool { return true })
+	}
+	if owner == nil {
+		return nil
+	}
+	p := st.Pool()[pk]
+	floor := floorOf(p)
+	_, hasPromise := st.Promise[pk]
 	variant := "valid"
 	var pos uint64
 	switch {
